@@ -124,6 +124,15 @@ func (w *walker) isTxCall(c *ast.CallExpr) (string, bool) {
 			return w.f.Src(c.Fun) + "(tx)", true
 		}
 	}
+	// a statement sent to the connection pool (a.db.Exec…, a.db.Query…) between BEGIN and COMMIT is not part of the transaction:
+	// it takes effect at once, whatever becomes of the transaction (recorded with the destination "pool", which nothing covers)
+	if sel, ok := c.Fun.(*ast.SelectorExpr); ok {
+		if inner, ok := sel.X.(*ast.SelectorExpr); ok && inner.Sel.Name == "db" {
+			if _, ok := inner.X.(*ast.Ident); ok && !strings.HasPrefix(sel.Sel.Name, "Begin") && sel.Sel.Name != "Rebind" {
+				return w.f.Src(inner) + "." + sel.Sel.Name, true
+			}
+		}
+	}
 	return "", false
 }
 
@@ -552,6 +561,9 @@ func main() {
 		}
 		for _, c := range f.calls {
 			d, v := splitDest(c.dest)
+			if strings.Contains(c.callee, ".db.") && !strings.HasPrefix(c.callee, "tx") {
+				d = "pool"
+			}
 			cs = append(cs, fmt.Sprintf("⟨%d, %q, %q, %q⟩", c.line, c.callee, d, v))
 		}
 		fmt.Fprintf(&b, "  { adapter := %q, name := %q, deferVar := %q, deferOk := %v,\n    rets := [%s],\n    calls := [%s] }", f.adapter, f.name,
